@@ -14,6 +14,23 @@ def gen_scenario(rng):
     style = rng.choice("ABB")
     lines.append("setup style " + style)
     tid = 0
+    if rng.random() < 0.3:
+        # burst: more records of ONE signal than the per-signal channel holds, while the consumer drains
+        sg = watch[0]
+        for _ in range(rng.randint(5, 6)):
+            lines.append("t0 deliver %d" % sg)          # fills the channel first
+        for _ in range(rng.randint(2, 4)):
+            lines.append("t1 deliver %d" % sg)          # races with the drain
+        lines[1] = "setup style B"
+        for _ in range(rng.randint(10, 16)):
+            lines.append("t2 poll")
+        hold = rng.choice([150, 250, 400])
+        lines.append("delay t1 %d" % hold)
+        lines.append("delay t2 %d" % hold)
+        tid = 3
+        lines.append("seed %d" % rng.randint(1, 2**31))
+        lines.append("maxsteps 20000")
+        return lines
     if rng.random() < 0.35:
         # two or three handle clones add the same new signal concurrently, then it is delivered
         new = rng.choice([15, 17])
@@ -72,6 +89,7 @@ def monitors(r):
     started = {}        # id -> sig
     completed = {}      # id -> line index of its `ret done`
     yielded = {}        # id -> line index
+    called = {}         # id -> line index of its `call deliver`
     outstanding = {}    # sig -> ids sent and not yet yielded (to recognise legal overflow drops)
     maybe_dropped = set()
     cur = {}            # tid -> (call text, start index)
@@ -86,6 +104,7 @@ def monitors(r):
             if w[1] == "deliver":
                 sg, idn = int(w[2]), int(w[3])
                 started[idn] = sg
+                called[idn] = i
                 q = outstanding.setdefault(sg, [])
                 q.append(idn)
                 if len(q) > 5:
@@ -100,6 +119,12 @@ def monitors(r):
                 probs["C10"].append("line %d: yielded a record (signal %d, id %d) that no delivery carried" % (i, sg, idn))
             elif idn in yielded:
                 probs["C10"].append("line %d: the record of delivery %d (signal %d) was yielded twice" % (i, idn, sg))
+            # records of one signal come out in the order of their deliveries: a delivery that had
+            # returned before another one began is reported first
+            for other, at in yielded.items():
+                if started.get(other) == sg and other in called and idn in completed and completed[idn] < called[other]:
+                    probs["C10"].append("line %d: the record of delivery %d (signal %d) is yielded after the record of delivery %d, which began only after %d had returned" % (i, idn, sg, other, idn))
+                    break
             yielded[idn] = i
             if idn in outstanding.get(sg, []):
                 outstanding[sg].remove(idn)
